@@ -53,9 +53,15 @@ def random_scenario(rng, i, maxbytes=4000, faults=True, bidir=None, iss=None):
 WRAP_ISS = [[0x7fff, 0xff00], [0x7fff, 0xffff], [0x8000, 0x0000], [0xffff, 0xff00], [0xffff, 0xfffe], [0xffff, 0xffff], [0, 0], [0, 1]]
 
 
-def run_pair(ctx, drv, scs, props, name, parallel=48, classify=None, what='TCP behaviour'):
+def run_pair(ctx, drv, scs, props, name, parallel=48, classify=None, what='TCP behaviour', kind='pair', judge_unfinished=False):
     """Run scenarios on the real stacks, validate every trace against the P-spec clauses of `props`.
-    A rejected scenario is re-run once alone (verdict rule: reproduce); only a reproduced rejection is reported."""
+    A rejected scenario is re-run once alone (verdict rule: reproduce); only a reproduced rejection is reported.
+    `drv` is any driver with the command line of harness/tcpd (`<drv> pair scenarios.json out.ndjson parallel`) that writes
+    the event schema of TraceTcp: the pair driver (two real stacks; kind='pair') or the raw-peer driver harness/tcprawd
+    (one real stack against a scripted peer, its own scenario format; kind='rawpeer', recorded in the replay files).
+    judge_unfinished: also validate traces that were cut off by the scenario deadline (every clause but the end-of-scenario
+    ones of C02 is a safety clause, so a prefix of a run is judged soundly; a scripted peer can drive the stack into a
+    live-lock whose trace would otherwise never be looked at)."""
     sp = os.path.join(ctx.work, name + '-scen.json')
     tp = os.path.join(ctx.work, name + '-trace.ndjson')
     vlib.write_json(sp, scs)
@@ -68,7 +74,7 @@ def run_pair(ctx, drv, scs, props, name, parallel=48, classify=None, what='TCP b
             raise vlib.Inconclusive('scenario %d produced no trace' % i)
         if any(e.get('ev') == 'panic' for e in s):
             ctx.violation('%s: the stack panicked in scenario %s: %s' % (what, scs[i].get('tag'), [e for e in s if e.get('ev') == 'panic'][0].get('what')),
-                          dict(kind='pair', scenario=scs[i]))
+                          dict(kind=kind, scenario=scs[i]))
     # a pinned ISS (hook H4) must be the one on the wire, otherwise the wrap scenarios silently test nothing
     for i, s in enumerate(segs):
         want = (scs[i].get('a') or {}).get('iss')
@@ -79,6 +85,9 @@ def run_pair(ctx, drv, scs, props, name, parallel=48, classify=None, what='TCP b
                     scs[i].get('tag'), want, syn[0].get('seqraw_hi'), syn[0].get('seqraw_lo')))
     ctx.extra['pinned_iss_scenarios'] = ctx.extra.get('pinned_iss_scenarios', 0) + sum(1 for sc in scs if (sc.get('a') or {}).get('iss'))
     inconclusive = [i for i, s in enumerate(segs) if s[-1].get('ev') == 'end' and s[-1].get('why') in ('deadline', 'connect-timeout', 'accept-timeout')]
+    unfinished = len(inconclusive)
+    if judge_unfinished:
+        inconclusive = []
     ok_idx = [i for i in range(len(scs)) if i not in inconclusive and not any(e.get('ev') == 'panic' for e in segs[i])]
     tc = tcfg(props)
     # Validation in passes: findings the spec can step over (KF_FLAG) that are known and hit once are switched on for every
@@ -95,7 +104,7 @@ def run_pair(ctx, drv, scs, props, name, parallel=48, classify=None, what='TCP b
             i = pending[k]
             key0 = classify(scs[i], segs[i], ln) if classify else None
             if key0 in KF_FLAG and ctx.known(key0) is not None and not segs[i][0].get(KF_FLAG[key0]):
-                ctx.violation('%s: %s in scenario %s' % (what, key0, scs[i].get('tag')), dict(kind='pair', scenario=scs[i]), key=key0)
+                ctx.violation('%s: %s in scenario %s' % (what, key0, scs[i].get('tag')), dict(kind=kind, scenario=scs[i]), key=key0)
                 newflags.add(KF_FLAG[key0])
                 still.append(i)
             else:
@@ -110,7 +119,7 @@ def run_pair(ctx, drv, scs, props, name, parallel=48, classify=None, what='TCP b
                 segs[i][0][f] = True
         ctx.extra['unexamined_segments'] = 0
     ok_idx_map = ok_idx
-    stats = dict(scenarios=len(scs), accepted=acc, rejected=len(rej), undecided_deadline=len(inconclusive),
+    stats = dict(scenarios=len(scs), accepted=acc, rejected=len(rej), undecided_deadline=len(inconclusive), ended_by_deadline=unfinished,
                  events=sum(len(s) for s in segs), segments_emitted=sum(1 for s in segs for e in s if e['ev'] == 'emit'),
                  faults=sum(1 for s in segs for e in s if e['ev'] == 'drop' or e.get('how') in ('dup', 'held', 'replay')),
                  bytes_read=sum(e.get('n', 0) for s in segs for e in s if e['ev'] == 'read'))
@@ -126,12 +135,12 @@ def run_pair(ctx, drv, scs, props, name, parallel=48, classify=None, what='TCP b
         key0 = classify(scs[i], segs[i], ln) if classify else None
         if key0 is not None and ctx.known(key0) is not None:
             if key0 not in KF_FLAG:
-                ctx.violation('%s: %s in scenario %s' % (what, key0, scs[i].get('tag')), dict(kind='pair', scenario=scs[i]), key=key0)
+                ctx.violation('%s: %s in scenario %s' % (what, key0, scs[i].get('tag')), dict(kind=kind, scenario=scs[i]), key=key0)
                 continue
             seg0, keyx, lnx, tries = segs[i], key0, ln, 0
             while keyx in KF_FLAG and ctx.known(keyx) is not None and tries < 4:
                 tries += 1
-                ctx.violation('%s: %s in scenario %s' % (what, keyx, scs[i].get('tag')), dict(kind='pair', scenario=scs[i]), key=keyx)
+                ctx.violation('%s: %s in scenario %s' % (what, keyx, scs[i].get('tag')), dict(kind=kind, scenario=scs[i]), key=keyx)
                 seg0[0][KF_FLAG[keyx]] = True
                 a3, r3 = vlib.validate_segments(ctx, 'TraceTcp', tc, SPEC, [seg0], name='%s-kf%d-%d' % (name, i, tries), count=False)
                 if not r3:
@@ -143,7 +152,7 @@ def run_pair(ctx, drv, scs, props, name, parallel=48, classify=None, what='TCP b
                 ctx.traces += 1
                 continue
             if keyx is not None and ctx.known(keyx) is not None and keyx not in KF_FLAG:
-                ctx.violation('%s: %s in scenario %s' % (what, keyx, scs[i].get('tag')), dict(kind='pair', scenario=scs[i]), key=keyx)
+                ctx.violation('%s: %s in scenario %s' % (what, keyx, scs[i].get('tag')), dict(kind=kind, scenario=scs[i]), key=keyx)
                 continue
         # otherwise reproduce once, alone
         sp2 = os.path.join(ctx.work, '%s-retry%d.json' % (name, i))
@@ -166,7 +175,7 @@ def run_pair(ctx, drv, scs, props, name, parallel=48, classify=None, what='TCP b
         tries = 0
         while key in KF_FLAG and ctx.known(key) is not None and tries < 3:
             tries += 1
-            ctx.violation('%s: %s in scenario %s' % (what, key, scs[i].get('tag')), dict(kind='pair', scenario=scs[i]), key=key)
+            ctx.violation('%s: %s in scenario %s' % (what, key, scs[i].get('tag')), dict(kind=kind, scenario=scs[i]), key=key)
             seg2[0][KF_FLAG[key]] = True
             a3, r3 = vlib.validate_segments(ctx, 'TraceTcp', tc, SPEC, [seg2], name='%s-kf%d-%d' % (name, i, tries), count=False)
             if not r3:
@@ -179,7 +188,7 @@ def run_pair(ctx, drv, scs, props, name, parallel=48, classify=None, what='TCP b
             continue
         brief = {k_: v for k_, v in ev.items() if k_ not in ('pay', 'a', 'b')}
         ctx.violation('%s rejected by the P-spec (%s) in scenario %s at event %d: %s' % (what, '+'.join(props), scs[i].get('tag'), r2[0][1], brief),
-                      dict(kind='pair', scenario=scs[i], events=[{k_: v for k_, v in e.items() if k_ != 'pay'} for e in seg2[max(0, r2[0][1] - 30):r2[0][1] + 1]]), key=key)
+                      dict(kind=kind, scenario=scs[i], events=[{k_: v for k_, v in e.items() if k_ != 'pay'} for e in seg2[max(0, r2[0][1] - 30):r2[0][1] + 1]]), key=key)
         reported.append(i)
     return segs, stats, reported
 
@@ -260,7 +269,7 @@ def is_f7(sc, seg, ln):
     if ev.get('ev') != 'emit' or ev.get('len', 0) <= 0:
         return False
     e, seq = ev['e'], ev['seq']
-    prev = [x for x in seg[:ln] if x['ev'] == 'emit' and x.get('e') == e and x.get('seq') == seq and x.get('len', 0) > 0]
+    prev = [x for x in seg[:ln] if x['ev'] == 'emit' and x.get('e') == e and x.get('len', 0) > 0 and x.get('seq', 0) <= seq < x.get('seq', 0) + x['len']]
     if len(prev) < 2:
         return False
     tprev, tfirst = prev[-1]['t'], prev[0]['t']
@@ -281,11 +290,34 @@ def is_f14(sc, seg, ln):
     return ev['iplen'] > mtu and ev['iplen'] - (8 * len(ev['sack']) + 4) <= mtu
 
 
+def is_f27(sc, seg, ln):
+    """F27: an ACK that lands in the MIDDLE of a sent segment trims the payload of the queued segment but not its sequence
+    number: the remainder is (re)transmitted under the old sequence number.  Shape: a data emission that starts exactly at
+    the start of an earlier emitted segment which an ACK that had arrived acknowledged partially (start < ack < end), i.e.
+    it starts below the highest acknowledgement received."""
+    ev = seg[ln] if ln < len(seg) else {}
+    if ev.get('ev') != 'emit' or ev.get('len', 0) <= 0:
+        return False
+    e, seq = ev['e'], ev['seq']
+    sent, part, hi = [], set(), 0
+    for x in seg[:ln]:
+        if x['ev'] == 'emit' and x.get('e') == e and x.get('len', 0) > 0:
+            sent.append((x['seq'], x['seq'] + x['len']))
+        elif x['ev'] == 'arrive' and x.get('to') == e and 'A' in x.get('flags', '') and 'S' not in x.get('flags', '') and x.get('ack', -1) > -900000:
+            a = x['ack']
+            if not sent or a > max(s1 for _, s1 in sent) + 1:
+                continue
+            if a > hi:
+                part.update(s0 for s0, s1 in sent if s0 < a < s1)
+                hi = a
+    return seq in part and seq < hi
+
+
 KF_FLAG = {'F4': 'kf_f4', 'F7': 'kf_f7', 'F14': 'kf_f14'}      # findings the spec can step over so that the rest of the trace is still judged
 
 
 def classify_all(sc, seg, ln):
-    for key, fn in (('F1', is_f1), ('F4', is_f4), ('F14', is_f14), ('F5', is_f5), ('F7', is_f7)):
+    for key, fn in (('F1', is_f1), ('F4', is_f4), ('F14', is_f14), ('F5', is_f5), ('F27', is_f27), ('F7', is_f7)):
         try:
             if fn(sc, seg, ln):
                 return key
